@@ -190,6 +190,7 @@ Proof.
     + inv H. apply ext_refl.
     + destruct (nth_error (vars st) x); inv H; [apply ext_set_var | apply ext_refl].
     + destruct (nth_error (vars st) x); inv H; apply ext_refl.
+    + inv H. apply ext_set_var.
     + (* CallList *)
       destruct (m_args (meval defs n sc tb) args [] st) as [[o|vs] st1] eqn:E; inv H;
         eapply m_args_frame; eauto; exact I.
@@ -364,6 +365,7 @@ Proof.
     + inv H. apply ext_refl.
     + destruct (nth_error (vars st) x); inv H; [apply ext_set_var | apply ext_refl].
     + destruct (nth_error (vars st) x); inv H; apply ext_refl.
+    + inv H. apply ext_set_var.
     + destruct (s_args (seval defs n bl tg) args [] st) as [[o1|vs] st1] eqn:E; inv H;
         eapply s_args_frame; eauto; exact I.
     + eapply s_seq_frame; eauto.
